@@ -83,6 +83,8 @@ def item_duration(call, i):
         return 0
     cs = call["chunk"]
     chunk = i // cs
+    if mode == "all":
+        return d["t"]
     if mode == "slow_chunk":           # one designated chunk is the slowest (late head / late tail)
         return d["t"] if chunk == d["chunk"] and i % cs == 0 else 0
     if mode == "alternate":
@@ -118,6 +120,14 @@ def make_input(call, ci, sh):
     n = call["n"]
     size = call.get("result_size", 0)
     items = [(ci, i, item_duration(call, i)) + ((size,) if size else ()) for i in range(n)]
+    if call.get("nones"):
+        # None is a legitimate data item (a missing value the functor knows how to handle): f(None) is None
+        out = []
+        for i, x in enumerate(items):
+            if i in call["nones"]:
+                out.append(None)
+            out.append(x)
+        items = out
     form = call.get("form", "list")
     if form == "list":
         return items
@@ -369,7 +379,7 @@ def run_case_here(case, outpath, scratch):
                                           join_timeout=case.get("join_timeout"))
         else:
             wcls = pw.WORKER_CLASS[start_method]
-            workers = [wcls(sh, math.inf, faults.get(i), i, case.get("end_delay", 0),
+            workers = [wcls(sh, case.get("functor_quota") or math.inf, faults.get(i), i, case.get("end_delay", 0),
                             case.get("begin_delay", 0) if i % 2 == 0 else 0, plan_items) for i in range(case["workers"])]
             pool = opp.FunctorPool(workers, context=ctx, work_queue_maxsize=wq, results_queue_maxsize=rq,
                                    join_timeout=case.get("join_timeout"))
@@ -507,6 +517,8 @@ def _compact(y, call):
 
 def _simple_functor(sh):
     def f(x):
+        if x is None:
+            return None
         call, idx, dur = x[:3]
         sh.log("item", call=call, idx=idx)
         if dur:
@@ -658,6 +670,23 @@ def value_findings(case, result):
         if not rec.get("completed"):
             continue        # the run ended inside this call (deadlock): not a value verdict
         ys = [tuple(y) if isinstance(y, (list, tuple)) else y for y in rec["yields"]]
+        if call.get("nones"):
+            want_seq = []
+            for i in range(call["n"]):
+                if i in call["nones"]:
+                    want_seq.append(None)
+                want_seq.append((ci, i))
+            got_seq = [y[:2] if isinstance(y, tuple) else y for y in ys]
+            if call["ordered"]:
+                if got_seq != want_seq:
+                    out.append(("lost-result" if len(got_seq) < len(want_seq) else "reordered-result",
+                                f"call {ci} ({_cd(call)}, input contains None items at {sorted(call['nones'])}): yielded "
+                                f"{len(got_seq)} results {got_seq[:8]}..., expected {len(want_seq)}: {want_seq[:8]}..."))
+                continue
+            if sorted(map(repr, got_seq)) != sorted(map(repr, want_seq)):
+                out.append(("lost-result", f"unordered call {ci} with None items: yielded {len(got_seq)} results, expected "
+                            f"{len(want_seq)} (None results: {got_seq.count(None)} of {want_seq.count(None)})"))
+            continue
         size = call.get("result_size", 0)
         if size:
             badblob = [y[:2] for y in ys if not (isinstance(y, tuple) and len(y) == 3 and y[2] == "OK")]
@@ -782,6 +811,7 @@ def lifecycle_findings(case, result):
             # a completed run joined every worker; a faulted worker is dead: both must have run end()
             out.append(("end-missing", f"worker wid={wid} pid={pid} ({'faulted' if faulted else 'joined'}) never ran end(); "
                         f"events {names[-4:]}"))
+        quota = case.get("quota") or case.get("functor_quota")
         if quota:
             chunks = {(e["call"], e["idx"] // case["calls"][e["call"]]["chunk"]) for e in es if e["ev"] == "item"}
             if len(chunks) > quota:
